@@ -55,8 +55,14 @@ def _b_worker(job):
     rep = Report(PID, _G["tier"], 0, "model_checking")
     first_choice, sizes, maxpicks = job[:3]
     ypattern = job[3] if len(job) > 3 else "every"       # when a frame of stream Y follows an X frame: every / odd / even X feed
+    counters = job[4] if len(job) > 4 else "pairwise"    # "consecutive": only neighbouring messages carry different counters
     cs = [z3.BitVec("c%d" % i, 3) for i in range(len(sizes) + 1)]
-    assume = [cs[i] != cs[j] for i in range(len(cs)) for j in range(i + 1, len(cs))]
+    if counters == "consecutive":
+        # what the property assumes and no more: consecutive messages differ; the first frame of every message arrives (the
+        # property's losses concern the frames that follow a first frame), so "consecutive as sent" is "consecutive as received"
+        assume = [cs[i] != cs[i + 1] for i in range(len(cs) - 1)]
+    else:
+        assume = [cs[i] != cs[j] for i in range(len(cs)) for j in range(i + 1, len(cs))]
     msgs = [make_frames("m%d" % i, n, SymInt(z3.ZeroExt(1, cs[i]), 3)) for i, n in enumerate(sizes)]
     final = make_frames("fin", 9, SymInt(z3.ZeroExt(1, cs[len(sizes)]), 3))   # always sent intact at the end
     ypay, yframes = make_frames("y", 13, 5)
@@ -89,6 +95,8 @@ def _b_worker(job):
         for i, (pay, frames) in enumerate(msgs):
             if i == 0:
                 lost = first_choice
+            elif counters == "consecutive":
+                lost = 0
             else:
                 lost = ex.choose(2)
             seen = set()
@@ -292,6 +300,10 @@ def run(tier, seed):
     jobs = [(fc, sizes, maxp) for fc in (0, 1)] + [(fc, (27, 13), maxp) for fc in (0, 1)]
     # the second stream's frames after every other X frame only (two consecutive X frames with no foreign frame between them)
     jobs += [(0, sizes, maxp, "odd"), (0, sizes, maxp, "even"), (0, (13, 13), maxp, "odd"), (0, (13, 13), maxp, "even")]
+    # payload lengths that are multiples of 7 (the last frame carries a single byte)
+    jobs += [(fc, (14, 7), maxp) for fc in (0, 1)] + [(0, (21, 14), 3)]
+    # a message that fits into its first frame between two longer ones; only consecutive counters are assumed different
+    jobs += [(0, (20, 5, 13), 2, "every", "consecutive"), (0, (13, 6, 13), 2, "odd", "consecutive")]
     if tier == "thorough":
         jobs += [(fc, (13, 20), maxp) for fc in (0, 1)] + [(fc, (34, 7), maxp) for fc in (0, 1)] + [(fc, (20, 27), maxp) for fc in (0, 1)]
     ctx = mp.get_context("fork")
@@ -311,7 +323,7 @@ def run(tier, seed):
             trans += part["trans"]
     rep.coverage.update(states=max(1, states), transitions=max(1, trans), traces_validated_against_impl=0,
                         explanation="states = explored histories (paths), transitions = frames fed to the real decoder")
-    rep.assumptions = ["the (at most three) messages in flight on a stream carry pairwise different sequence counters (the property requires consecutive ones to differ)",
+    rep.assumptions = ["the messages of a history carry pairwise different sequence counters when first frames may be lost; when every first frame arrives only consecutive messages are assumed to differ (the property's own assumption)",
                        "frames of a message are not delivered after the first frame of the next message on the stream"]
     code = rep.finish(replay)
     return code
